@@ -316,19 +316,22 @@ func runC18(r *ev.Run) {
 			fail("cos.zero-accepted", "PreprocessInPlace accepted the zero vector")
 		}
 
-		// --- batch == element-wise ---
+		// --- batch == element-wise (targets: an unrelated vector AND the related one, so that nearly equal
+		// query/target pairs with large norms — where an expanded |q|²-2q·t+|t|² form cancels — are covered) ---
 		qs := [][]float32{a, b, c}
 		for name, d := range map[string]comet.Distance{"l2": l2, "l2sq": l2sq} {
-			got := d.CalculateBatch(qs, c)
-			if len(got) != 3 {
-				fail(name+".batch-length", "CalculateBatch returned wrong length")
-				continue
-			}
-			for k, q := range qs {
-				w := float64(d.Calculate(q, c))
-				tol := 2 * rt * w
-				if math.Abs(float64(got[k])-w) > tol+1e-37 {
-					fail(name+".batch-differs", fmt.Sprintf("batch[%d]=%g scalar=%g", k, got[k], w))
+			for ti, target := range [][]float32{c, b, a} {
+				got := d.CalculateBatch(qs, target)
+				if len(got) != 3 {
+					fail(name+".batch-length", "CalculateBatch returned wrong length")
+					continue
+				}
+				for k, q := range qs {
+					w := float64(d.Calculate(q, target))
+					tol := 2 * rt * w
+					if math.Abs(float64(got[k])-w) > tol+1e-37 {
+						fail(name+".batch-differs", fmt.Sprintf("target %d: batch[%d]=%g scalar=%g (rel %s)", ti, k, got[k], w, rel))
+					}
 				}
 			}
 		}
